@@ -16,6 +16,10 @@ def run(c):
     # binding (V): free-running real fleets (three Sync loops with receivers, cleaners, random writers); every
     # instance's transaction log must be a behaviour of FleetTrace.tla and the fleet must converge
     fleet.validate(c, 'C01', c.tier)
+    # convergence presupposes that every committed write gets uploaded: behaviours of the sync loop (LSLoop, checked
+    # exhaustively under C03/C09) replayed on the real loop, with the publish monitor of C09 counted for C01
+    import loopx
+    loopx.run_suite(c, 'C01', extra_props=('C09',), with_window=False, exhaustive=False)
     c.assumptions += ['tomb sweeper disabled (property text)', 'shadow mode: one shared monotone clock; real stamps are compared up to order-isomorphism',
                       'native mode: per instance and key the application uses strictly increasing timestamps (DESIGN.md s.7)',
                       'shadow configurations model shadowToMain as the code is (empty application values are dropped, known finding F3 of C11)']
